@@ -339,3 +339,71 @@ def gen_bootstrap(rng, consts):
     meta = {"kind": kind, "tau": tau, "ncontacts": n, "modes": [m for _, m in resp], "end": end,
             "has_normal": any(m == "normal" for _, m in resp), "routers": bool(routers)}
     return sc, meta
+
+
+def gen_network(rng, consts, band="ok", horizon="day", n=None):
+    """C01: 2..9 real serving nodes that all know each other; announcers and searchers at offsets of seconds .. > 24 h.
+    band: 'ok' (one-way latency < 0.75 s) or 'slow' (one-way latency in [0.75 s, 1 s): known finding F-C01)."""
+    sc = simlib.Scenario()
+    v6 = rng.chance(1, 3)
+    n = n or rng.range(2, 9)
+    sc.add("seed %d" % rng.below(1 << 30))
+    sc.add("terse")
+    if band == "ok":
+        lo, hi = rng.choice([(1 * MS, 1 * MS), (1 * MS, 100 * MS), (20 * MS, 400 * MS), (300 * MS, 740 * MS), (700 * MS, 749 * MS)])
+    else:
+        lo, hi = rng.choice([(750 * MS, 760 * MS), (800 * MS, 900 * MS), (750 * MS, 999 * MS)])
+    sc.add("latency %d %d" % (lo, hi))
+    nodes = []
+    for i in range(n):
+        a = addr_in_family(rng, v6, 1 + i)
+        idv = comp.rand_id(rng)
+        aport = rng.choice([None, None, rng.range(1, 65535)])
+        nodes.append({"name": "n%d" % i, "addr": a, "id": idv, "aport": aport})
+    for nd in nodes:
+        sc.add_node(nd["name"], nd["addr"], nd["id"], ro=False, aport=nd["aport"],
+                    nodes=[o["addr"] for o in nodes if o is not nd], start=rng.choice([0, 0, rng.below(3 * S)]), traced=False)
+    hashes = [comp.rand_id(rng) for _ in range(rng.range(1, 2))]
+    # some info-hashes close to a node id (the announcer's own neighbourhood differs from the searcher's)
+    if rng.chance(1, 3):
+        hashes[0] = nodes[rng.below(n)]["id"] ^ rng.below(1 << rng.range(1, 150))
+    tag = [0]
+    events = []
+
+    def search(t, node, ih, ann):
+        tag[0] += 1
+        sc.add("at %d search %s %040x %d s%d" % (t, node["name"], ih, 1 if ann else 0, tag[0]))
+        events.append({"tag": "s%d" % tag[0], "t": t, "node": node["name"], "ih": ih, "ann": ann})
+
+    t_first = rng.range(10 * S, 40 * S)
+    announces = []
+    for ih in hashes:
+        for k in range(rng.choice([1, 1, 2, 3])):
+            a = nodes[rng.below(n)]
+            t = t_first + rng.below(20 * S)
+            search(t, a, ih, True)
+            announces.append((t, a, ih))
+    # a re-announce (keeps the contact alive for another 24 h)
+    reann = None
+    if horizon == "day" and rng.chance(1, 3):
+        t0, a, ih = announces[0]
+        reann = t0 + rng.range(1 * HOUR, 20 * HOUR)
+        search(reann, a, ih, True)
+    t_after = t_first + 20 * S + 60 * S       # every announcing search has ended by then (checked, not assumed)
+    offsets = [0, rng.below(10 * S), rng.range(10 * S, 10 * MIN), rng.range(10 * MIN, 2 * HOUR)]
+    if horizon == "day":
+        # relative to t_after = t_first + 80 s: the last searches that must still find the contact end just before
+        # (first announce) + 24 h, the first ones that must not find it start just after (last announce ended) + 24 h
+        offsets += [rng.range(2 * HOUR, 23 * HOUR), DAY - 100 * S - rng.below(10 * MIN), DAY - 90 * S,
+                    DAY - 50 * S, DAY - 50 * S + rng.below(2 * HOUR)]
+        if reann is not None:
+            offsets += [reann - t_first + DAY - 90 * S, reann - t_first + DAY - 50 * S]
+    for off in offsets:
+        for ih in hashes:
+            for _ in range(rng.choice([1, 1, 2])):
+                search(t_after + off, nodes[rng.below(n)], ih, False)
+    end = max(e["t"] for e in events) + 60 * S
+    sc.add("end %d" % end)
+    meta = {"v6": v6, "n": n, "band": band, "lat": (lo, hi), "events": events,
+            "nodes": {nd["name"]: {"addr": nd["addr"].script(), "aport": nd["aport"]} for nd in nodes}}
+    return sc, meta
